@@ -180,19 +180,30 @@ package boltz
 //@   invariant 2: ciFix == fix && (!fix ==> dbSame())
 //@   invariant 3: ciFix == fix && (!fix ==> dbSame())
 
-// ---- store-level fan-out: every constraint and link collection is checked, with the caller's fix flag and sink ----
+// ---- store-level fan-out: every link collection and every constraint of the store is checked (ciDone), with the
+// caller's fix flag; assumed: the store's schema (its map of link collections and its list of constraints) does not
+// change while a check runs ----
+//@ ghost ciDone : (Array Int Bool) private
+//@ immutable H.boltz.BaseStore.links
+//@ immutable M.string.boltz.LinkCollection.dom
+//@ immutable M.string.boltz.LinkCollection.val.typ
+//@ immutable M.string.boltz.LinkCollection.val.val
+//@ immutable H.boltz.Indexer.constraints.len
+//@ immutable H.boltz.Indexer.constraints.nil
+//@ immutable H.boltz.Indexer.constraints.arr.typ
+//@ immutable H.boltz.Indexer.constraints.arr.val
 //@ func (Checkable).CheckIntegrity
-//@   modifies *
+//@   modifies *, ciDone[self]
 //@   ensures[check-mode-is-read-only] !fix ==> dbSame()
+//@   ensures[checked] result == nil ==> ciDone[self]
 //@ func (*BaseStore).CheckIntegrity
 //@   props C09
 //@   nosafety
-//@   waive pre#Next the cursor protocol of the id and link cursors is C14's concern, not part of this claim
-//@   waive pre#Current the cursor protocol of the id and link cursors is C14's concern, not part of this claim
-//@   modifies *
+//@   modifies *, ciDone
 //@   ensures[check-mode-is-read-only] !fix ==> dbSame()
-//@   invariant 1: !fix ==> dbSame()
-//@   invariant 2: !fix ==> dbSame()
+//@   ensures[every-checker-runs] result == nil ==> forallStr(k, has(store.links, k) ==> ciDone[store.links[k]]) && forall(i, 0 <= i && i < len(store.Indexer.constraints) ==> ciDone[store.Indexer.constraints[i]])
+//@   invariant 1: (!fix ==> dbSame()) && forallStr(k, iterseen(k) ==> ciDone[store.links[k]])
+//@   invariant 2: (!fix ==> dbSame()) && forallStr(k, has(store.links, k) ==> ciDone[store.links[k]]) && forall(i, 0 <= i && i <= rangeindex ==> ciDone[store.Indexer.constraints[i]])
 
 // ---- the store's own readers are proved read-only (they are what the interface-level contracts above assume) ----
 //@ func (Store).GetEntitiesBucket
